@@ -198,6 +198,52 @@ def check(run):
                  f"a failing callback is turned into a normal result and the caller goes on to commit the observation")
     if not swallowed:
         run.ok("PROPAGATE", "package.finally", f"{n_finally} finally blocks: none returns / breaks / continues")
+    # a context manager whose __exit__ returns a true value suppresses whatever was raised inside the `with` block
+    n_exit, truthy = 0, []
+    for path, text in sorted(prog.files.items()):
+        if "/visualization/" in path:
+            continue
+        for node in ast.walk(ast.parse(text)):
+            if isinstance(node, ast.FunctionDef) and node.name == "__exit__":
+                n_exit += 1
+                for r in ast.walk(node):
+                    if isinstance(r, ast.Return) and r.value is not None and not (
+                            isinstance(r.value, ast.Constant) and r.value.value in (None, False)):
+                        truthy.append((path, r.lineno, ast.unparse(r.value)[:60]))
+    for path, line, what in truthy:
+        run.fail("PROPAGATE", f"{path}:__exit__", f"{path}:{line}", path, f"__exit__ returns {what}",
+                 f"__exit__ returns `{what}`: whenever that value is true the exception raised inside the `with` block is "
+                 f"suppressed -- a failing model / loss / imputer call then looks like a normal exit and the explainer goes on to "
+                 f"commit a half-computed observation")
+    if not truthy:
+        run.ok("PROPAGATE", "package.__exit__", f"{n_exit} __exit__ methods: none can return a true value")
+    # a callback driven by a lazy iterator tool: StopIteration raised by the callback is read as the end of the data
+    lazy, n_lazy = [], 0
+    LAZY = {"map", "filter", "itertools.starmap", "starmap", "itertools.takewhile", "takewhile", "itertools.dropwhile", "dropwhile",
+            "itertools.accumulate", "accumulate", "itertools.filterfalse", "filterfalse"}
+    for path, text in sorted(prog.files.items()):
+        if "/visualization/" in path:
+            continue
+        for node in ast.walk(ast.parse(text)):
+            if isinstance(node, ast.Call) and ast.unparse(node.func) in LAZY and node.args:
+                n_lazy += 1
+                f = node.args[0]
+                if ast.unparse(node.func) in ("itertools.accumulate", "accumulate"):
+                    f = node.args[1] if len(node.args) > 1 else next((k.value for k in node.keywords if k.arg == "func"), None)
+                if f is None:
+                    continue
+                holder = f.attr if isinstance(f, ast.Attribute) and isinstance(f.value, ast.Name) and f.value.id == "self" else None
+                if holder is not None and any(w in holder for w in ("model", "loss", "function", "imputer", "predict")):
+                    lazy.append((path, node.lineno, ast.unparse(node)[:70], holder))
+    for path, line, what, holder in lazy:
+        run.fail("PROPAGATE", f"{path}:lazy-callback", f"{path}:{line}", path, what,
+                 f"the user's callback self.{holder} is driven by `{what.split('(')[0]}`: a StopIteration raised inside the "
+                 f"callback is taken by the consumer of that iterator as the end of the data, so the failure is swallowed, fewer "
+                 f"values than asked for come back and the explanation is committed")
+    if not lazy:
+        run.ok("PROPAGATE", "package.lazy-callbacks", f"{n_lazy} map / filter / itertools calls: none drives a user callback")
+    from .c06 import depends_on
+    depends_on(run, "C05", {"AVERAGE"}, only=lambda rule, inst: "acc-init" in inst)     # accumulators of a run are not the published estimate
     run.need(n_fallible >= 12, f"only {n_fallible} fallible call sites found (confirmed minimum 12)")
     run.notes["fallible_call_sites"] = n_fallible
 
